@@ -20,7 +20,7 @@ impl Monitor for C11 {
         "C11"
     }
     fn gens(&self, tier: Tier) -> Vec<(&'static str, u64)> {
-        vec![("blocks", tier.pick(160 * 40, 160 * 800))]
+        vec![("blocks", tier.pick(160 * 2000, 160 * 40_000))]
     }
     fn rule(&self) -> &'static str {
         "case i -> (flat | spatial block) x loops L in 1..4 x input-skips x output-skips x accumulation in {add, subtract, multiply, mean, overwrite} (the 160-point grid is walked completely, 40+ times), body of 1..3 random shape-preserving layers (dense; 'same' convolutions incl. dilation 2, size-preserving deconvolutions, deconvolution+max-pool pairs), the block placed first / after a layer of matching representation / before a dense layer (flattened output) / last; repetition-free weights in [-1,1]; Network::predict is compared with the reference block (L-fold application with shared weights, repetition r>1 fed combine(previous output, block input), output = combine(last, earlier outputs)) within the running f32 error bound. Distinct = distinct configuration descriptors."
